@@ -407,9 +407,37 @@ def _json_structure_faults(tv0: TokenView, other_algs):
 
 
 def splice_faults(a, b, label: str):
-    """all non-trivial segment masks between two compact or two flattened tokens a and b"""
+    """all non-trivial segment masks between two compact or two flattened tokens a and b;
+    for general JSON: payload and whole / partial signature entries taken from the other token"""
     ta, tb = TokenView(a[0], a[1]), TokenView(b[0], b[1])
-    if ta.compact != tb.compact or ta.nsigs() != 1 or tb.nsigs() != 1:
+    if ta.compact != tb.compact:
+        return
+    if not ta.compact and "signatures" in ta.obj and "signatures" in tb.obj:
+        n = min(ta.nsigs(), tb.nsigs())
+
+        def pl(tv, tb=tb):
+            tv.obj["payload"] = tb.obj["payload"]
+            return True
+        yield ("splice." + label, "payload of the other general token", pl)
+        for i in range(n):
+            for part in ("entry", "protected", "signature"):
+                def fn(tv, i=i, part=part, tb=tb):
+                    src = tb.obj["signatures"][i]
+                    if part == "entry":
+                        tv.obj["signatures"][i] = copy.deepcopy(src)
+                    elif part in src:
+                        tv.obj["signatures"][i][part] = src[part]
+                    else:
+                        return False
+                    return True
+                yield ("splice." + label, "signatures[%d].%s of the other general token" % (i, part), fn)
+
+            def app(tv, i=i, tb=tb):
+                tv.obj["signatures"].append(copy.deepcopy(tb.obj["signatures"][i]))
+                return True
+            yield ("splice." + label, "signatures[%d] of the other token appended" % i, app)
+        return
+    if ta.nsigs() != 1 or tb.nsigs() != 1:
         return
     for mask in range(1, 7):
         def fn(tv, mask=mask, tb=tb):
